@@ -939,7 +939,7 @@ class Transaction:
             for scr in script_pubkeys:
                 s = scr.to_hex()
                 script_len = int(len(s) / 2)
-                hash_script_pubkeys += bytes([script_len]) + h_to_b(s)
+                hash_script_pubkeys += encode_varint(script_len) + h_to_b(s)
             hash_script_pubkeys = hashlib.sha256(hash_script_pubkeys).digest()
             tx_for_signing += hash_script_pubkeys
 
@@ -955,7 +955,7 @@ class Transaction:
                 amount_bytes = struct.pack("<Q", txout.amount)
                 script_bytes = txout.script_pubkey.to_bytes()
                 hash_outputs += (
-                    amount_bytes + struct.pack("B", len(script_bytes)) + script_bytes
+                    amount_bytes + encode_varint(len(script_bytes)) + script_bytes
                 )
             hash_outputs = hashlib.sha256(hash_outputs).digest()
             tx_for_signing += hash_outputs
@@ -978,7 +978,7 @@ class Transaction:
 
             script_pubkey = script_pubkeys[txin_index].to_hex()
             script_len = int(len(script_pubkey) / 2)
-            tx_for_signing += bytes([script_len]) + h_to_b(script_pubkey)
+            tx_for_signing += encode_varint(script_len) + h_to_b(script_pubkey)
 
             tx_for_signing += txin.sequence
         else:
@@ -995,7 +995,7 @@ class Transaction:
             amount_bytes = struct.pack("<Q", txout.amount)
             script_bytes = txout.script_pubkey.to_bytes()
             hash_output = (
-                amount_bytes + struct.pack("B", len(script_bytes)) + script_bytes
+                amount_bytes + encode_varint(len(script_bytes)) + script_bytes
             )
             tx_for_signing += hashlib.sha256(hash_output).digest()
 
